@@ -27,7 +27,7 @@ PARTIAL = ["extra_validation (nonlinsolve) is not exercised"]
 
 KINDS_UI = ["K1", "K2", "K3", "K4", "K5", "K6"]
 KINDS_CAL = ["K7", "K7b", "K8", "K9", "K9b"]
-KINDS_EKF = ["K10", "K10b", "K11a", "K11b", "K11c", "K12", "K12b", "K12c", "K13", "K13b", "K13c", "K14", "K15", "K16", "K17", "K17z", "K18", "K19",
+KINDS_EKF = ["K10", "K10z", "K10b", "K11a", "K11b", "K11c", "K12", "K12b", "K12c", "K13", "K13b", "K13c", "K14", "K15", "K16", "K17", "K17z", "K18", "K19",
              "V1", "V2"]       # V*: variants that are still structurally VALID (must be accepted)
 
 
@@ -138,6 +138,11 @@ def inject(rng, spec, kind, pos=None):
             s.calmap_assumed = pick(sorted(s.calmap))
         elif kind == "K10":
             s.noise.remove(pick(s.noise))
+        elif kind == "K10z":
+            # every process-noise entry is missing (an empty table for a model that has controls)
+            if not s.control:
+                return None
+            s.noise.clear()
         elif kind == "K10b":
             # the entry of one control is missing; an off-diagonal (pair-keyed) entry stands in its place, so the COUNT is right
             if len(s.control) < 2:
@@ -311,6 +316,8 @@ def run(ctx):
         n_state, n_control, n_calib, n_sensors = (ctx.rng.choice([2, 3]), ctx.rng.choice([1, 2]), ctx.rng.choice([1, 2]), ctx.rng.choice([1, 2]))
         if i % 3 == 0:   # the first definition of every three always has two of everything: faults that need a second control / sensor always apply
             n_control, n_calib, n_sensors = 2, 2, 2
+        if i % 3 == 1:   # the second always has exactly one control: dropping its noise entry leaves an empty table
+            n_control = 1
         d = gen.gen_definition(ctx.rng, n_state=n_state, n_control=n_control, n_calib=n_calib, n_sensors=n_sensors, depth=1, max_readings=2)
         if i % 3 == 0:   # string-keyed stream: make sure one sensor has two readings (faults that need a first and a last reading)
             k0 = sorted(d.sensors)[0]
